@@ -597,3 +597,70 @@ func VfC04_NonStructAlias() {
 	closed, _ := hClosed(m)
 	vfAssert("C04.non-struct-alias.closed", closed)
 }
+
+// VfC04_NumberedLocals: references to unnamed (numbered) blocks and values
+// next to named ones.  The entry block and the parameter are named, so the
+// first unnamed block is %0; every unnamed block is written with its explicit
+// label `N:` or without any label (forked per block), every unnamed value with
+// `%N = ` or without.  Each branch target, switch case, phi predecessor, phi
+// value and the blockaddress written before the function must be the very
+// block / instruction that the function lists at that position.
+//
+//vf:unwind 400
+//vf:shards 4
+func VfC04_NumberedLocals() {
+	ex := func(k int, explicit string) string {
+		if vfChoice("form"+string(rune('0'+k)), 2) == 0 {
+			return explicit
+		}
+		return "\n"
+	}
+	exv := func(k int, explicit string) string {
+		if vfChoice("form"+string(rune('0'+k)), 2) == 0 {
+			return explicit
+		}
+		return ""
+	}
+	x := hLetterIn("x", 'u', 'z')
+	src := "@ba = global i8* blockaddress(@f, %3)\n" +
+		"define i32 @f(i32 %" + x + ") {\nentry:\n\tbr label %0\n" +
+		ex(0, "0:\n") +
+		"\t" + exv(1, "%1 = ") + "add i32 %" + x + ", 1\n" +
+		"\tbr i1 true, label %2, label %3\n" +
+		ex(2, "2:\n") +
+		"\tbr label %3\n" +
+		ex(3, "3:\n") +
+		"\t%4 = phi i32 [ %1, %0 ], [ %" + x + ", %2 ]\n" +
+		"\tswitch i32 %4, label %0 [ i32 1, label %2 i32 2, label %3 ]\n}\n"
+	m, err := ParseString("t.ll", src)
+	vfReach("C04.numbered-locals")
+	vfObserveStr("src", src)
+	vfAssert("C04.numbered.accepted", err == nil)
+	if err != nil {
+		return
+	}
+	f := m.Funcs[0]
+	vfAssert("C04.numbered.four-blocks", len(f.Blocks) == 4)
+	if len(f.Blocks) != 4 {
+		return
+	}
+	entry, b0, b2, b3 := f.Blocks[0], f.Blocks[1], f.Blocks[2], f.Blocks[3]
+	add := b0.Insts[0].(*ir.InstAdd)
+	phi := b3.Insts[0].(*ir.InstPhi)
+	vfAssert("C04.numbered.entry-target", entry.Term.(*ir.TermBr).Target == value.Value(b0))
+	cbr := b0.Term.(*ir.TermCondBr)
+	vfAssert("C04.numbered.condbr-targets", vfAnd(cbr.TargetTrue == value.Value(b2), cbr.TargetFalse == value.Value(b3)))
+	vfAssert("C04.numbered.br-target", b2.Term.(*ir.TermBr).Target == value.Value(b3))
+	vfAssert("C04.numbered.phi-preds", vfAnd(phi.Incs[0].Pred == value.Value(b0), phi.Incs[1].Pred == value.Value(b2)))
+	vfAssert("C04.numbered.phi-values", vfAnd(phi.Incs[0].X == value.Value(add), phi.Incs[1].X == value.Value(f.Params[0])))
+	sw := b3.Term.(*ir.TermSwitch)
+	vfAssert("C04.numbered.switch-targets", vfAnd(sw.X == value.Value(phi), vfAnd(sw.TargetDefault == value.Value(b0), vfAnd(sw.Cases[0].Target == value.Value(b2), sw.Cases[1].Target == value.Value(b3)))))
+	ba := m.Globals[0].Init.(*constant.BlockAddress)
+	vfAssert("C04.numbered.blockaddress-block-is-def", ba.Block == value.Named(b3))
+	// the successor views agree with the blocks of the function
+	vfAssert("C04.numbered.succs", vfAnd(b0.Term.Succs()[0] == b2, vfAnd(b0.Term.Succs()[1] == b3, b3.Term.Succs()[0] == b0)))
+	closed, _ := hClosed(m)
+	vfAssert("C04.numbered.closed", closed)
+	out := m.String()
+	vfObserveStr("out", out)
+}
